@@ -43,7 +43,7 @@ var (
 	ElNames3 = []string{"a", "b", "c"}
 	ElNames2 = []string{"a", "b"}
 	AtNames2 = []string{"x", "y"}
-	Texts    = []string{"1", "2", "t", "10", "x y", "it's", "9999999999999999999"} // the last: 19 digits, above the largest int64
+	Texts    = []string{"1", "2", "t", "10", "x y", "it's", "9999999999999999999", ""} // the last: 19 digits, above the largest int64
 	AtVals   = []string{"1", "2", "t", "", "18446744073709551616"}
 )
 
